@@ -1,5 +1,7 @@
 import TwistedProps.C04.DLInv
 import TwistedProps.C04.RaceInv
+import TwistedProps.C04.RaceCount
+import TwistedProps.C04.RaceCancel
 /-!
 C04 — DeferredList, gatherResults and race fire once with correctly ordered results.
 
@@ -16,18 +18,24 @@ DeferredList / gatherResults — all proved for every input list, flag combinati
   (both from `dl_first_trigger`), `dl_consumeErrors_later_callbacks_see_none`, `gather_values_in_input_order`,
   `gather_first_failure`, `dl_cancel_unfired_cancels_inputs`; `dl_fire_appends_log` ties `log` to the history.
 
-race — proved for every input list and history: `race_fires_at_most_once` (and the model's `unmodelled` branch is
-  never reached), `race_result_sound` (a success result is the FIRST success's (index, value); a FailureGroup
-  holds n delivered failures sorted by input index), `race_winner_is_first_success`; per step, for every state:
-  `race_first_success_cancels_all_others` (each other input exactly one `cancel()`, the winner none — also when a
-  canceller raises: the repaired code), `race_later_success_ignored`.
-  PARTIAL (`race_first_success_partial`): FULL STATEMENT WANTED — "if the race was not cancelled before, the first
-  success (i, v) makes it fire with `won i v`".  PROVED — it then HAS fired, exactly once, with `won i v`, or with
-  `cancelledErr` (cancelled before), or with some FailureGroup.  MISSING — that the FailureGroup alternative is
-  impossible (needs the counting invariant "every input is delivered at most once", so `failure_state` cannot reach
-  n while one input succeeded; not proved in Lean, exercised by the tie and the oracle on every run).  For the same
-  reason "all n inputs failed ⇒ it fires with the FailureGroup" and "cancelling an unfired race calls cancel() on
-  every input" are established by the tie/oracle only, not by a theorem.
+race — all proved for every input list and history (invariants `NI`/`RI` in C04/RaceInv.lean, the counting invariant
+  `CI` in C04/RaceCount.lean, the `cancel()` counts `R` in C04/RaceCancel.lean):
+  `race_fires_at_most_once` (and the model's `unmodelled` branch is never reached);
+  `race_delivers_each_input_at_most_once` (the counting invariant: the indices in `log` are pairwise distinct, below n,
+  and delivered inputs have fired); `race_result_sound`, `race_winner_is_first_success`;
+  `race_first_success`: once a first success (i, v) exists the race HAS fired, exactly once, with `won i v` — or with
+  `cancelledErr`, which happens only if the history cancels the race (`race_cancelledErr_only_if_cancelled`), so
+  `race_first_success_uncancelled`: never cancelled ⇒ fires = [won i v].  A FailureGroup is impossible then
+  (`race_no_failureGroup_after_success`);
+  `race_all_fail`: all n ≥ 1 inputs delivered, none succeeded ⇒ it HAS fired, exactly once, with a FailureGroup of
+  exactly n failures whose i-th entry is input i's failure (or with `cancelledErr`, cancelled before);
+  `race_cancel_unfired_cancels_inputs` (every unfired winner-less state — all reachable unfired states are:
+  `race_unfired_no_winner`; history form `race_cancel_unfired_cancels_inputs_history`): `final_result.cancel()` gives
+  every input exactly one `cancel()` from the race's canceller — also fired inputs, also past a canceller that raises
+  (the repaired code) — plus the one `cancel()` every non-winner gets from `succeeded` when a canceller makes its input
+  the first success during that very cancellation; `race_cancel_unfired_exactly_once` when none does;
+  per step, for every state: `race_first_success_cancels_all_others` (each other input exactly one `cancel()`, the
+  winner none — also when a canceller raises), `race_later_success_ignored`.
 -/
 namespace TwistedProps.C04
 set_option linter.unusedSimpArgs false
@@ -411,121 +419,6 @@ example : gatherFires (DL.run (gatherFlags false) [{}, {}, { res := some (.val 9
 example : ((DL.run {} [{ canc := .raises }, { canc := .firesOk 7 }, { canc := .noop }] [.cancelAgg]).inputs.map (·.cancels))
     = [1, 1, 1] := by decide
 
-theorem failed_inputs (s : Race) (j : Nat) (f : Res) : (Race.failed s j f).1.inputs = s.inputs := by
-  unfold Race.failed Race.fireFinal
-  simp only []
-  split
-  · split <;> rfl
-  · rfl
-
-theorem callbackNested_inputs (s : Race) (j : Nat) (r : Res) : (Race.callbackNested s j r).1.inputs = s.inputs := by
-  unfold Race.callbackNested Race.succeededNested
-  split
-  · exact failed_inputs s j r
-  · simp only []; split <;> rfl
-
-theorem getElem?_some_lt {α} {l : List α} {i : Nat} {x : α} (h : l[i]? = some x) : i < l.length := by
-  rcases Nat.lt_or_ge i l.length with h1 | h1
-  · exact h1
-  · rw [List.getElem?_eq_none h1] at h; simp at h
-
-theorem deliverNested_inputs (s : Race) (j : Nat) (inp : Inp) (r : Res) :
-    ∃ X : Inp, (Race.deliverNested s j inp r).inputs = s.inputs.set j X ∧ X.cancels = inp.cancels := by
-  unfold Race.deliverNested
-  simp only []
-  split
-  · exact ⟨{ inp with res := some (Race.callbackNested
-        { s with inputs := s.inputs.set j { inp with res := some r, canc := .none } } j r).2, canc := .none },
-      by rw [callbackNested_inputs]; simp only [List.set_set], rfl⟩
-  · exact ⟨{ inp with res := some r, canc := .none }, rfl, rfl⟩
-
-theorem cancelNested_inputs (s : Race) (j : Nat) (inp : Inp) (h : s.inputs[j]? = some inp) :
-    ∃ X : Inp, (Race.cancelNested s j).inputs = s.inputs.set j X ∧ X.cancels = inp.cancels + 1 := by
-  unfold Race.cancelNested
-  rw [h]
-  simp only []
-  split
-  · exact ⟨_, rfl, rfl⟩
-  · split
-    · refine ⟨_, rfl, ?_⟩; split <;> rfl
-    · rename_i r hr
-      obtain ⟨X, hX, hc⟩ := deliverNested_inputs
-        { s with inputs := s.inputs.set j (if inp.canc.effect.2 = true then
-            { inp with cancels := inp.cancels + 1, cancCalls := inp.cancCalls + 1 }
-            else { inp with cancels := inp.cancels + 1 }) } j
-        (if inp.canc.effect.2 = true then
-            { inp with cancels := inp.cancels + 1, cancCalls := inp.cancCalls + 1 }
-            else { inp with cancels := inp.cancels + 1 }) r
-      refine ⟨X, ?_, ?_⟩
-      · rw [hX]; simp only [List.set_set]
-      · rw [hc]; split <;> rfl
-
-theorem cancelNested_cancels (s : Race) (j i : Nat) :
-    ((Race.cancelNested s j).inputs[i]?).map (·.cancels) =
-      (s.inputs[i]?).map (fun x => x.cancels + if i = j then 1 else 0) := by
-  cases hj : s.inputs[j]? with
-  | none =>
-    have : Race.cancelNested s j = s := by unfold Race.cancelNested; rw [hj]
-    rw [this]
-    by_cases hij : i = j
-    · subst hij; simp [hj]
-    · simp [hij]
-  | some inp =>
-    obtain ⟨X, hX, hc⟩ := cancelNested_inputs s j inp hj
-    rw [hX, List.getElem?_set]
-    by_cases hij : j = i
-    · subst hij
-      have hlt := getElem?_some_lt hj
-      have hg : s.inputs[j] = inp := by
-        rw [List.getElem?_eq_getElem hlt] at hj; exact Option.some.inj hj
-      simp [hlt, hg, hc]
-    · have : ¬ i = j := fun e => hij e.symm
-      simp [hij, this]
-
-theorem cancelOthers_cancels (w : Nat) (js : List Nat) (s : Race) (i : Nat) :
-    ((Race.cancelOthers s w js).inputs[i]?).map (·.cancels) =
-      (s.inputs[i]?).map (fun x => x.cancels + if i = w then 0 else js.count i) := by
-  induction js generalizing s with
-  | nil => simp [Race.cancelOthers]
-  | cons j js ih =>
-    simp only [Race.cancelOthers]
-    rw [ih]
-    by_cases hjw : j = w
-    · simp only [hjw, if_true]
-      cases s.inputs[i]? with
-      | none => rfl
-      | some y =>
-        simp only [Option.map_some, List.count_cons]
-        by_cases hiw : i = w
-        · simp [hiw]
-        · have : ¬ w = i := fun e => hiw e.symm
-          simp [hiw, this]
-    · simp only [hjw, if_false]
-      have h1 := cancelNested_cancels s j i
-      cases hx : (Race.cancelNested s j).inputs[i]? with
-      | none =>
-        rw [hx] at h1
-        cases hy : s.inputs[i]? with
-        | none => rfl
-        | some y => rw [hy] at h1; simp at h1
-      | some x =>
-        rw [hx] at h1
-        cases hy : s.inputs[i]? with
-        | none => rw [hy] at h1; simp at h1
-        | some y =>
-          rw [hy] at h1
-          simp only [Option.map_some, List.count_cons, Option.some.injEq] at h1 ⊢
-          by_cases hiw : i = w
-          · simp [hiw]
-            subst hiw
-            have : ¬ i = j := fun e => hjw e.symm
-            simp [this] at h1; omega
-          · simp only [hiw, if_false]
-            by_cases hij : i = j
-            · subst hij; simp at h1 ⊢; omega
-            · have : ¬ j = i := fun e => hij e.symm
-              simp [hij, this] at h1 ⊢; omega
-
 /-- **the first success cancels every other input exactly once and never the winner** — whatever the
     other inputs' state and cancellers (also one that raises), for every state in which no input has won yet -/
 theorem race_first_success_cancels_all_others (s : Race) (hw : s.winner = none) (i : Nat) (v : Res)
@@ -575,38 +468,195 @@ theorem race_result_sound (inputs : List Inp) (ops : List Op) :
           st.length = inputs.length ∧ ∀ x ∈ st, x ∈ (Race.run inputs ops).log ∧ x.2.isFailure = true) :=
   ⟨(run_ri inputs ops).ni.won, (run_ri inputs ops).ni.fg⟩
 
-/-- PARTIAL (see the header for what is missing): once some input has succeeded — `(i, v)` being the first
-    success in firing order — input `i` is the winner and the race HAS fired, exactly once, with `(i, v)`
-    unless it had been cancelled before (or fired a FailureGroup — impossible, but not proved here). -/
-theorem race_first_success_partial (inputs : List Inp) (ops : List Op) (i : Nat) (v : Res)
-    (h : (Race.run inputs ops).log.find? isSucc = some (i, v)) :
-    (Race.run inputs ops).winner = some i ∧
-    ((Race.run inputs ops).fires = [.won i v] ∨ (Race.run inputs ops).fires = [.cancelledErr] ∨
-      ∃ fs, (Race.run inputs ops).fires = [.failureGroup fs]) := by
-  have hri := run_ri inputs ops
-  have hw : (Race.run inputs ops).winner = some i := by rw [hri.ni.win, h]; rfl
-  refine ⟨hw, ?_⟩
-  have hc := hri.done (by rw [hw]; rfl)
-  have hcalled := hri.ni.called
-  have honce := hri.ni.once
+/-- **every input is delivered to the race's callbacks at most once** (the indices in the log are pairwise
+    distinct), only inputs of the list are, and only after they fired -/
+theorem race_delivers_each_input_at_most_once (inputs : List Inp) (ops : List Op) :
+    ((Race.run inputs ops).log.map (·.1)).Nodup ∧
+    ∀ x ∈ (Race.run inputs ops).log, x.1 < inputs.length ∧ RFired (Race.run inputs ops).inputs x.1 :=
+  have h := (run_ci inputs ops true (fun e => by cases e)).base
+  ⟨h.nd, fun x hx => ⟨h.lt x hx, h.fired x hx⟩⟩
+
+/-- a race that has fired has fired with exactly one result -/
+theorem race_fired_singleton {n : Nat} {s : Race} (h : NI n s) (hc : s.finalCalled = true) : ∃ x, s.fires = [x] := by
+  have hcalled := h.called
+  have honce := h.once
   rw [hc] at hcalled
-  cases hf : (Race.run inputs ops).fires with
+  cases hf : s.fires with
   | nil => rw [hf] at hcalled; simp at hcalled
   | cons x rest =>
     rw [hf] at honce
-    have hr : rest = [] := by
-      cases rest with
-      | nil => rfl
-      | cons y ys => simp at honce
-    subst hr
-    cases x with
-    | won i' v' =>
-      have := hri.ni.won i' v' (by rw [hf]; simp)
-      rw [h] at this
-      injection this with this; injection this with h1 h2
-      subst h1; subst h2; exact Or.inl rfl
-    | failureGroup fs => exact Or.inr (Or.inr ⟨fs, rfl⟩)
-    | cancelledErr => exact Or.inr (Or.inl rfl)
+    cases rest with
+    | nil => exact ⟨x, rfl⟩
+    | cons y ys => simp at honce
+
+/-- once some input has succeeded the race never fires a FailureGroup: `failure_state` holds at most the failures
+    delivered, each input is delivered at most once, so it stays below `n` entries -/
+theorem race_no_failureGroup_after_success (inputs : List Inp) (ops : List Op) (x : Nat × Res)
+    (hx : x ∈ (Race.run inputs ops).log) (hs : x.2.isFailure = false) (fs : List Res) :
+    RaceRes.failureGroup fs ∉ (Race.run inputs ops).fires := by
+  intro hm
+  have h := (run_ci inputs ops true (fun e => by cases e)).base
+  have h1 := (h.fgx fs hm).2.2
+  have h2 := h.fsp.length_eq
+  have h3 : ((Race.run inputs ops).log.filter isFail).length < (Race.run inputs ops).log.length :=
+    List.length_filter_lt_length_iff_exists.2 ⟨x, hx, by simp [isFail, hs]⟩
+  have h4 := nodup_lt_length (n := inputs.length) h.nd (by
+    intro y hy
+    obtain ⟨z, hz, rfl⟩ := List.mem_map.1 hy
+    exact h.lt z hz)
+  simp only [List.length_map] at h4
+  omega
+
+/-- **race fires with the first success.**  Once some input has succeeded — `(i, v)` being the first success in
+    firing order — input `i` is the winner and the race HAS fired, exactly once, with `(i, v)`; the only other
+    possibility is that it had been cancelled before (it then fired, exactly once, with `CancelledError`:
+    `race_cancelledErr_only_if_cancelled`). -/
+theorem race_first_success (inputs : List Inp) (ops : List Op) (i : Nat) (v : Res)
+    (h : (Race.run inputs ops).log.find? isSucc = some (i, v)) :
+    (Race.run inputs ops).winner = some i ∧
+    ((Race.run inputs ops).fires = [.won i v] ∨ (Race.run inputs ops).fires = [.cancelledErr]) := by
+  have hri := run_ri inputs ops
+  have hw : (Race.run inputs ops).winner = some i := by rw [hri.ni.win, h]; rfl
+  refine ⟨hw, ?_⟩
+  obtain ⟨x, hf⟩ := race_fired_singleton hri.ni (hri.done (by rw [hw]; rfl))
+  cases x with
+  | won i' v' =>
+    have := hri.ni.won i' v' (by rw [hf]; simp)
+    rw [h] at this
+    injection this with this; injection this with h1 h2
+    subst h1; subst h2; exact Or.inl hf
+  | failureGroup fs =>
+    have hmem := List.mem_of_find?_eq_some h
+    have hsucc := List.find?_some h
+    exact absurd (by rw [hf]; simp) (race_no_failureGroup_after_success inputs ops (i, v) hmem
+      (by simpa [isSucc] using hsucc) fs)
+  | cancelledErr => exact Or.inr hf
+
+/-- the race fires with `CancelledError` only if the history cancels the race -/
+theorem race_cancelledErr_only_if_cancelled (inputs : List Inp) (ops : List Op)
+    (h : RaceRes.cancelledErr ∈ (Race.run inputs ops).fires) : Op.cancelAgg ∈ ops := by
+  apply Classical.byContradiction
+  intro hn
+  exact (run_ci inputs ops false (fun _ => hn)).base.nce rfl h
+
+/-- a race that is never cancelled fires with the first success, exactly once, as soon as there is one -/
+theorem race_first_success_uncancelled (inputs : List Inp) (ops : List Op) (hc : Op.cancelAgg ∉ ops) (i : Nat) (v : Res)
+    (h : (Race.run inputs ops).log.find? isSucc = some (i, v)) : (Race.run inputs ops).fires = [.won i v] := by
+  rcases (race_first_success inputs ops i v h).2 with hf | hf
+  · exact hf
+  · exact absurd (race_cancelledErr_only_if_cancelled inputs ops (by rw [hf]; simp)) hc
+
+/-- **race fires with all failures in input order when every input failed.**  When all `n ≥ 1` inputs have been
+    delivered and none succeeded, the race HAS fired, exactly once, with a FailureGroup of exactly `n` failures, the
+    `i`-th being the failure input `i` was delivered with (each input is delivered at most once:
+    `race_delivers_each_input_at_most_once`) — unless it had been cancelled before (`CancelledError`). -/
+theorem race_all_fail (inputs : List Inp) (ops : List Op) (hne : inputs ≠ [])
+    (hall : ∀ i, i < inputs.length → ∃ f, (i, f) ∈ (Race.run inputs ops).log)
+    (hfail : ∀ x ∈ (Race.run inputs ops).log, x.2.isFailure = true) :
+    (Race.run inputs ops).fires = [.cancelledErr] ∨
+    ∃ fs, (Race.run inputs ops).fires = [.failureGroup fs] ∧ fs.length = inputs.length ∧
+      ∀ i (hi : i < fs.length), (i, fs[i]) ∈ (Race.run inputs ops).log := by
+  have hri := run_ri inputs ops
+  have hci := run_ci inputs ops true (fun e => by cases e)
+  have h := hci.base
+  have hn : 0 < inputs.length := List.length_pos_iff.2 hne
+  have hfilt : (Race.run inputs ops).log.filter isFail = (Race.run inputs ops).log :=
+    List.filter_eq_self.2 (fun x hx => by simpa [isFail] using hfail x hx)
+  have hperm := h.fsp
+  rw [hfilt] at hperm
+  have hle := nodup_lt_length (n := inputs.length) h.nd (by
+    intro y hy
+    obtain ⟨z, hz, rfl⟩ := List.mem_map.1 hy
+    exact h.lt z hz)
+  have hge := nodup_subset_length (a := List.range inputs.length) (b := (Race.run inputs ops).log.map (·.1))
+    List.nodup_range (by
+      intro i hi
+      obtain ⟨f, hf⟩ := hall i (List.mem_range.1 hi)
+      exact List.mem_map.2 ⟨(i, f), hf, rfl⟩)
+  simp only [List.length_map, List.length_range] at hle hge
+  have hlen : (Race.run inputs ops).failureState.length = inputs.length := by rw [hperm.length_eq]; omega
+  obtain ⟨x, hf⟩ := race_fired_singleton hri.ni (hci.fc hlen hn)
+  cases x with
+  | won i v =>
+    have h1 := hri.ni.won i v (by rw [hf]; simp)
+    have h2 := hfail _ (List.mem_of_find?_eq_some h1)
+    have h3 := List.find?_some h1
+    simp [isSucc] at h3
+    rw [h2] at h3; cases h3
+  | cancelledErr => exact Or.inl hf
+  | failureGroup fs =>
+    right
+    obtain ⟨hfs, hsorted, _⟩ := h.fgx fs (by rw [hf]; simp)
+    have hnd : ((Race.run inputs ops).failureState.map (·.1)).Nodup := (hperm.map (·.1)).nodup_iff.2 h.nd
+    have hstrict : ((Race.run inputs ops).failureState.map (·.1)).Pairwise (· < ·) := by
+      have h1 : ((Race.run inputs ops).failureState.map (·.1)).Pairwise (· ≤ ·) := List.pairwise_map.2 hsorted
+      exact (h1.and hnd).imp (fun hab => Nat.lt_of_le_of_ne hab.1 hab.2)
+    have hrange := strict_range' _ 0 hstrict (by
+      intro y hy
+      obtain ⟨z, hz, rfl⟩ := List.mem_map.1 hy
+      have := h.lt z (hperm.mem_iff.1 hz)
+      simp only [List.length_map, hlen]; omega)
+    simp only [List.length_map, hlen] at hrange
+    refine ⟨fs, hf, by rw [hfs, List.length_map, hlen], ?_⟩
+    intro i hi
+    have hi' : i < (Race.run inputs ops).failureState.length := by rw [hfs, List.length_map] at hi; exact hi
+    have h1 : ((Race.run inputs ops).failureState.map (·.1))[i]'(by simpa using hi') = i := by
+      simp only [hrange, List.getElem_range']; omega
+    have h2 : fs[i] = ((Race.run inputs ops).failureState[i]).2 := by simp only [hfs, List.getElem_map]
+    have h3 : (i, fs[i]) = (Race.run inputs ops).failureState[i] := by
+      rw [h2]
+      rw [List.getElem_map] at h1
+      exact Prod.ext h1.symm rfl
+    rw [h3]
+    exact hperm.mem_iff.1 (List.getElem_mem hi')
+
+/-- **cancelling an unfired race calls `cancel()` on every input**: exactly once from the race's canceller — on
+    fired inputs too, and also when some canceller raises (the repaired code logs it and carries on) — plus, if
+    one of the cancellers makes its input SUCCEED (the first success, `w`), the one `cancel()` that `succeeded` gives
+    every input other than `w` (`extra (some w) k = if k = w then 0 else 1`, `extra none k = 0`).  For every state in
+    which the race has not fired and no input has won (every reachable unfired state: `race_unfired_no_winner`). -/
+theorem race_cancel_unfired_cancels_inputs (s : Race) (hf : s.finalCalled = false) (hw : s.winner = none)
+    (k : Nat) (inp : Inp) (h : s.inputs[k]? = some inp) :
+    ∃ inp', (Race.cancelAgg s).inputs[k]? = some inp' ∧
+      inp'.cancels = inp.cancels + 1 + extra (Race.cancelAgg s).winner k := by
+  have hr := (cancelAgg_R k s hf).cnt
+  simp only [cancelsOf, h, hw, Option.map_some, Option.isNone_none, if_true, List.count_range, getElem?_some_lt h] at hr
+  cases hx : (Race.cancelAgg s).inputs[k]? with
+  | none => rw [hx] at hr; simp at hr
+  | some inp' => rw [hx] at hr; simp at hr; exact ⟨inp', rfl, hr⟩
+
+/-- … so when no canceller produces a success, every input gets exactly one `cancel()` -/
+theorem race_cancel_unfired_exactly_once (s : Race) (hf : s.finalCalled = false) (hw : s.winner = none)
+    (hn : (Race.cancelAgg s).winner = none) (k : Nat) (inp : Inp) (h : s.inputs[k]? = some inp) :
+    ∃ inp', (Race.cancelAgg s).inputs[k]? = some inp' ∧ inp'.cancels = inp.cancels + 1 := by
+  obtain ⟨inp', h1, h2⟩ := race_cancel_unfired_cancels_inputs s hf hw k inp h
+  exact ⟨inp', h1, by rw [h2, hn]; simp [extra]⟩
+
+/-- a reachable race that has not fired has no winner and `final_result.called` is false -/
+theorem race_unfired_no_winner (inputs : List Inp) (ops : List Op) (hf : (Race.run inputs ops).fires = []) :
+    (Race.run inputs ops).finalCalled = false ∧ (Race.run inputs ops).winner = none := by
+  have hri := run_ri inputs ops
+  have hc : (Race.run inputs ops).finalCalled = false := by rw [hri.ni.called, hf]; rfl
+  refine ⟨hc, ?_⟩
+  cases hw : (Race.run inputs ops).winner with
+  | none => rfl
+  | some w => have := hri.done (by rw [hw]; rfl); rw [hc] at this; cases this
+
+theorem race_exec_append (s : Race) (a b : List Op) : Race.exec s (a ++ b) = Race.exec (Race.exec s a) b := by
+  induction a generalizing s with
+  | nil => rfl
+  | cons op a ih => simp only [List.cons_append, Race.exec]; exact ih _
+
+/-- the same for histories: cancelling the race after ANY history that left it unfired -/
+theorem race_cancel_unfired_cancels_inputs_history (inputs : List Inp) (ops : List Op)
+    (hf : (Race.run inputs ops).fires = []) (k : Nat) (inp : Inp) (h : (Race.run inputs ops).inputs[k]? = some inp) :
+    ∃ inp', (Race.run inputs (ops ++ [.cancelAgg])).inputs[k]? = some inp' ∧
+      inp'.cancels = inp.cancels + 1 + extra (Race.run inputs (ops ++ [.cancelAgg])).winner k := by
+  have e : Race.run inputs (ops ++ [.cancelAgg]) = Race.cancelAgg (Race.run inputs ops) := by
+    unfold Race.run; rw [race_exec_append]; rfl
+  rw [e]
+  obtain ⟨h1, h2⟩ := race_unfired_no_winner inputs ops hf
+  exact race_cancel_unfired_cancels_inputs _ h1 h2 k inp h
 
 example : (Race.run [{}, {}, {}] [.fire 1 (.err 1), .fire 2 (.val 2), .fire 0 (.val 3)]).fires = [.won 2 (.val 2)] := by decide
 example : ((Race.run [{}, {}, {}] [.fire 1 (.err 1), .fire 2 (.val 2), .fire 0 (.val 3)]).inputs.map (·.cancels)) = [1, 1, 0] := by decide
@@ -614,5 +664,17 @@ example : (Race.run [{}, { res := some (.err 1) }, {}] [.fire 2 (.err 2), .fire 
     = [.failureGroup [.err 3, .err 1, .err 2]] := by decide
 example : (Race.run [{}, { canc := .raises }, {}] [.fire 0 (.val 1)]).fires = [.won 0 (.val 1)] := by decide
 example : ((Race.run [{}, { canc := .raises }, {}] [.cancelAgg]).inputs.map (·.cancels)) = [1, 1, 1] := by decide
+-- the `cancelledErr` alternative of `race_first_success` / `race_all_fail` is real: cancelled while an input whose
+-- canceller raises stays unfired, which then succeeds / fails
+example : (Race.run [{ canc := .raises }] [.cancelAgg, .fire 0 (.val 1)]).fires = [.cancelledErr] ∧
+    (Race.run [{ canc := .raises }] [.cancelAgg, .fire 0 (.val 1)]).log.find? isSucc = some (0, .val 1) := by decide
+example : (Race.run [{ canc := .raises }] [.cancelAgg, .fire 0 (.err 1)]).fires = [.cancelledErr] ∧
+    (Race.run [{ canc := .raises }] [.cancelAgg, .fire 0 (.err 1)]).log = [(0, .err 1)] := by decide
+-- a canceller that makes its input succeed during the race's cancellation: the others get a second `cancel()`
+example : (Race.run [{}, { canc := .firesOk 7 }, {}] [.cancelAgg]).fires = [.won 1 (.val 7)] ∧
+    ((Race.run [{}, { canc := .firesOk 7 }, {}] [.cancelAgg]).inputs.map (·.cancels)) = [2, 1, 2] := by decide
+-- all failed, fired in the order 1, 2, 0: the FailureGroup is in input order
+example : (Race.run [{}, {}, {}] [.fire 1 (.err 1), .fire 2 (.err 2), .fire 0 (.err 0)]).fires
+    = [.failureGroup [.err 0, .err 1, .err 2]] := by decide
 
 end TwistedProps.C04
